@@ -272,6 +272,9 @@ pub struct Ctx {
     pub profile: &'static str,
     pub shard: u32,
     pub nshards: u32,
+    /// which of a property's first-use orders of process-global lazily initialised state this process
+    /// takes (C14: 0 = a forward translation first, 1 = a reverse translation first)
+    pub order: u32,
     pub mode: Mode,
     pub known: Vec<String>,
     pub only_sub: Option<String>,
@@ -314,6 +317,7 @@ impl Ctx {
             profile: PROFILE,
             shard: 0,
             nshards: 1,
+            order: 0,
             mode: Mode::Run,
             known: vec![],
             only_sub: None,
@@ -582,6 +586,7 @@ impl Ctx {
             "seed": self.seed,
             "profile": self.profile,
             "shard": self.shard,
+            "order": self.order,
             "nshards": self.nshards,
             "evaluations": self.evaluations,
             "distinct_nontrivial": self.nt.len(),
